@@ -295,9 +295,12 @@ def matchfile_from_alignment(
 
             duration_symb = Fraction(duration_divs, dpq * 4)
 
-            beat = int((onset_divs - msd) // dpq)
+            # beats are counted in units of the time signature denominator
+            # (as in importmatch.py), the offset within the beat in whole notes
+            beat_divs = Fraction(4 * dpq, int(ts_den))
+            beat = int((int(onset_divs) - int(msd)) // beat_divs)
 
-            moffset_divs = Fraction(int(onset_divs - msd - beat * dpq), (dpq * 4))
+            moffset_divs = (int(onset_divs) - int(msd) - beat * beat_divs) / (dpq * 4)
 
             if debug:
                 duration_beats = offset_beats - onset_beats
